@@ -148,17 +148,14 @@ def quiescent (s : St) : Bool := s.svc.queued.isEmpty && s.pre.isEmpty && s.hold
 
 /-! ### register / unregister on a closed task handler (after `TaskHandler.flush()`) -/
 
-/-- the call reaches `__trigger_update` (it would have queued an apply task) -/
-def registerSubmits (v : Svc) (built : Option Trig) : Bool := (addCustom v built).1.queued.length != v.queued.length
-def unregisterSubmits (v : Svc) (h : Handle) : Bool := (removeCustom v h).queued.length != v.queued.length
-
-/-- `Deep.register_tracepoint` when `submit_task` refuses with `refusal`: the state left, the handle `add_custom` had
-    in hand, and the exception that leaves the call instead of the handle (none = the call returns it) -/
-def registerClosed (v : Svc) (built : Option Trig) (refusal : Py.Exn) : Svc × Handle × Option Py.Exn :=
-  ((addCustomRefused v built).1, (addCustomRefused v built).2, if registerSubmits v built then some refusal else none)
+/-- `Deep.register_tracepoint` when `submit_task` refuses with `refusal`: the state left (the regenerated statements up
+    to the raising call — nothing after it), the handle if the call returned one, the exception if it did not -/
+def registerClosed (v : Svc) (built : Option Trig) (refusal : Py.Exn) : Svc × Option Handle × Option Py.Exn :=
+  ((addCustomRefused v built).1, (addCustomRefused v built).2,
+   if (addCustomRefused v built).2.isNone then some refusal else none)
 
 def unregisterClosed (v : Svc) (h : Handle) (refusal : Py.Exn) : Svc × Option Py.Exn :=
-  (removeCustomRefused v h, if unregisterSubmits v h then some refusal else none)
+  ((removeCustomRefused v h).1, if (removeCustomRefused v h).2 then some refusal else none)
 
 inductive ClosedOp where
   | register (built : Option Trig)
